@@ -18,7 +18,12 @@ def run(ctx):
         "alternative sources of a validated value (families U, V): name.utf-8 / path.utf-8 independent of the plain keys (absent, "
         "present-but-empty, harmless, dangerous), duplicate dictionary keys (alternative first / last), 'length' next to 'files', "
         "BitComet padding names with / without attr; run with NewInfo flags (utf8,pad) = (on,on) New+resume v3, (on,off) v2, (off,off) v1; "
-        "families A-C alternate (on,on) / (off,off) by concretisation; the session path always uses metainfo.New"]
+        "families A-C alternate (on,on) / (off,off) by concretisation; the session path always uses metainfo.New",
+        "colliding paths (family W): pairs of raw paths that the cleaner / the join map onto one path ('/' vs '_', invalid byte vs U+FFFD "
+        "vs another invalid byte, > 255-byte names differing only in the part cut out (extension kept, multi-byte cut), '.' and empty "
+        "components), plain duplicates and near misses, adjacent or separated by a third file, x attr 'p' / BitComet padding name on "
+        "either file x pad flag on / off; within one case a symbol is one concrete string; case-insensitive or Unicode-normalising "
+        "file systems are outside the platform assumption (Linux: byte-wise names)"]
     mc_err = []
 
     def mc():
@@ -27,13 +32,13 @@ def run(ctx):
             ok, out = ctx.tlc_mc("MC_Paths", "MC_Paths_hole.cfg", timeout=1800, workers=2, expect_ok=False)
             if ok or "Invariant NoHole is violated" not in out:
                 raise vlib.MachineryError("vacuity guard: the model of the filter as found has no hole (NoHole not violated)")
-            ctx.mc_runs[-1]["expected_violation"] = "NoHole"
+            mark(ctx, "MC_Paths_hole.cfg", "NoHole")
             # alternative sources (name.utf-8 / path.utf-8): the validated value must be the value that is used
             ctx.tlc_mc("MC_PathsAlt", "MC_PathsAlt.cfg", timeout=1800, workers=4)
             ok, out = ctx.tlc_mc("MC_PathsAlt", "MC_PathsAlt_hole.cfg", timeout=1800, workers=2, expect_ok=False)
             if ok or "Invariant NoOrderHole is violated" not in out:
                 raise vlib.MachineryError("vacuity guard: validating the plain keys while using the utf-8 keys shows no hole in the model")
-            ctx.mc_runs[-1]["expected_violation"] = "NoOrderHole"
+            mark(ctx, "MC_PathsAlt_hole.cfg", "NoOrderHole")
             if not ctx.quick():
                 ctx.tlc_mc("MC_Paths", "MC_Paths_full.cfg", timeout=3000, workers=4)
                 ctx.tlc_mc("MC_Paths", "MC_Paths_big.cfg", timeout=3600, workers=4)
@@ -41,8 +46,24 @@ def run(ctx):
         except Exception as ex:
             mc_err.append(ex)
 
+    def mc_dup():
+        try:
+            # duplicate detection x cleaning x padding marks x parsing mode (pad flag on / off)
+            ctx.tlc_mc("MC_PathsDup", "MC_PathsDup.cfg", timeout=1800, workers=4)
+            for cfg, inv in (("MC_PathsDup_raw.cfg", "NoRawHole"), ("MC_PathsDup_padskip.cfg", "NoPadSkipHole")):
+                ok, out = ctx.tlc_mc("MC_PathsDup", cfg, timeout=1800, workers=2, expect_ok=False)
+                if ok or "Invariant %s is violated" % inv not in out:
+                    raise vlib.MachineryError("vacuity guard: the weakened duplicate check (%s) shows no hole in the model" % inv)
+                mark(ctx, cfg, inv)
+            if not ctx.quick():
+                ctx.tlc_mc("MC_PathsDup", "MC_PathsDup_big.cfg", timeout=3000, workers=4)
+        except Exception as ex:
+            mc_err.append(ex)
+
     th = threading.Thread(target=mc)
     th.start()
+    th2 = threading.Thread(target=mc_dup)
+    th2.start()
     time.sleep(0.3)
     if getattr(ctx, "replay", None):
         rep = json.load(open(ctx.replay))
@@ -70,8 +91,17 @@ def run(ctx):
     lines = vlib.read_ndjson(tp)
     judge(ctx, lines, stats)
     th.join()
+    th2.join()
     if mc_err:
         raise mc_err[0]
+
+
+def mark(ctx, cfg, inv):
+    """two MC threads append to ctx.mc_runs: find the run by its config"""
+    for r in reversed(ctx.mc_runs):
+        if r["cfg"] == cfg:
+            r["expected_violation"] = inv
+            return
 
 
 def symstr(path):
@@ -109,6 +139,12 @@ def judge(ctx, lines, stats):
     ctx.oblig("C07.remove", 4 * (stats.get("init.fs", 0) + stats.get("init.sess", 0) + stats.get("init.tar", 0)))  # 4 sentinels per run
     ctx.extra["violating_lines"] = len(viol)
     ctx.extra["model_prediction"] = {k[6:]: v for k, v in stats.items() if k.startswith("model.")}
+    # family W: the model's acceptance prediction per parsing mode must agree with the code on every case where the code
+    # REJECTS (a rejection the model does not predict = the near misses / hidden files are over-rejected: evidence only);
+    # an acceptance the model does not predict is reported by C07.distinct on the opened paths
+    wm = [d for d in lines if d["op"] == "Init" and d.get("fam") == "W" and d["run"] == "rec"]
+    ctx.extra["family_W"] = {"runs": len(wm), "accepted": sum(d["acc"] for d in wm),
+                             "accepted_pad_off": sum(d["acc"] for d in wm if d.get("pad") == 0)}
     if not getattr(ctx, "replay", None) and (stats.get("accepted.rec", 0) < 100 or stats.get("opens", 0) < 100):
         raise vlib.MachineryError("vacuous run: almost nothing was accepted / opened")
     # one verdict per signature class
@@ -133,6 +169,8 @@ def judge(ctx, lines, stats):
             src = "plain"
             if sym.get("fam") == "U":
                 src = "utf8-keys"
+            elif sym.get("fam") == "W":
+                src = "collide-%s pad=%s" % (sym.get("ck"), cur.get("pad"))
             elif sym.get("fam") == "V":
                 src = "dup-" + sym["dup"]["kind"] if sym.get("dup", {}).get("kind", "none") != "none" else sym.get("extra", "none")
             cls = "name=%s src=%s" % (ncls, src)
